@@ -219,7 +219,7 @@ func recipeEquivalent(key, got, want string) bool {
 		if !missing {
 			extraOK := true
 			for g := range have {
-				if !impliedGuards[key][g] {
+				if !impliedGuards[key][g] && !libraryErrorChecked(g) {
 					extraOK = false
 				}
 			}
@@ -416,4 +416,34 @@ var impliedGuards = map[string]map[string]bool{
 	"ScryptIdentity.unwrap.guards":  {`len(Field(P1.Body)) == 32`: true},
 	"X25519Identity.unwrap.guards":  {`len(Field(P1.Body)) == 32`: true},
 	"Ed25519Identity.unwrap.guards": {`len(Field(P1.Body)) == 32`: true},
+	// an RSA-OAEP ciphertext is exactly as long as the modulus
+	"RSAIdentity.unwrap.guards": {`len(Field(P1.Body)) == (*rsa.PublicKey).Size(Field(Field(Recv.k).PublicKey))`: true},
+}
+
+// libraryErrorChecked: the extra guard is `<call of a function outside the module>.1 == nil` — an
+// error of a library call that the specified code ignores is looked at. That can only refuse
+// where the library itself failed.
+func libraryErrorChecked(g string) bool {
+	if !strings.HasSuffix(g, ").1 == nil") {
+		return false
+	}
+	i := strings.IndexByte(g, '(')
+	if i <= 0 {
+		return false
+	}
+	name := g[:i]
+	dot := strings.IndexByte(name, '.')
+	if dot <= 0 {
+		return false
+	}
+	switch name[:dot] {
+	case "age", "agessh", "armor", "format", "stream", "bech32", "plugin", "main":
+		return false
+	}
+	for _, c := range name {
+		if !(c == '.' || c >= 'a' && c <= 'z' || c >= 'A' && c <= 'Z' || c >= '0' && c <= '9' || c == '_') {
+			return false
+		}
+	}
+	return true
 }
